@@ -36,8 +36,10 @@ Example C03_refuted_python : exists v rest, ~ full_statement TPython v rest.
 Proof. exact decode_wire_encode_refuted_python. Qed.
 Example C03_refuted_array : exists v rest, ~ full_statement (TArray (TUInt 1) None) v rest.
 Proof. exact decode_wire_encode_refuted_array. Qed.
-Example C03_refuted_string : exists v rest, ~ full_statement TString v rest.
-Proof. exact decode_wire_encode_refuted_string. Qed.
+(* STRING >= 65536 bytes was the third refutation; the reader was repaired (fixed: C03-a) and the case is now inside the theorem's range *)
+Example C03_long_string :
+  decode 1 TString (wire_encode 1 TString (VStr (repeat x41 (N.to_nat 65537))) ++ [x42]) = Ok (VStr (repeat x41 (N.to_nat 65537)), [x42]).
+Proof. exact decode_long_string. Qed.
 
 (* non-vacuity of the hypotheses: a nested value inside the code's ranges *)
 Example C03_example :
